@@ -335,17 +335,17 @@ impl Check for C15 {
         CheckInfo {
             id: "C15",
             level: "model_checking",
-            rule: "a parent whose calling act sits in one branch while an interrupt is open in the sibling branch, a child (and a grandchild in the 3-level variant) ended by complete with outputs / error with code and message / abort / skip / a script that throws, a missing target model, declared outputs on the call with every ending, an interrupt act after the call in the same step, the client closing the calling act itself (skip / complete / abort) under the running child; every order of queued tasks, launches, return activities and client answers (A-mode exhaustive, deviation-bounded for three levels); oracle per call: open until the callee's terminal event, closed once with the mapped state, outputs / error code handed back, callee started with exactly the call options plus the link keys, caller's terminal event after the callee's, missing model fails the act, the act after the call starts once and only after the call is closed".into(),
+            rule: "a parent whose calling act sits in one branch while an interrupt is open in the sibling branch, a child (and a grandchild in the 3-level variant) ended by complete with outputs / error with code and message / abort / skip / a script that throws, a missing target model, declared outputs on the call with every ending, an interrupt act after the call in the same step, the client closing the calling act itself (skip / complete / abort) under the running child; every order of queued tasks, launches, return activities and client answers (A-mode exhaustive; three levels deviation-bounded in quick, exhaustive in thorough); oracle per call: open until the callee's terminal event, closed once with the mapped state, outputs / error code handed back, callee started with exactly the call options plus the link keys, caller's terminal event after the callee's, missing model fails the act, the act after the call starts once and only after the call is closed".into(),
             assumptions: vec!["activities are atomic; no reachable way was found for a process to end in state skipped (skipping the child's only act ends the child completed), so the skipped mapping is reported as vacuous".into()],
             budget_s: tier.pick(50, 600),
             exhaustive_when_uncapped: true,
-            bounds: json!({"levels": [2, 3], "deviations_for_three_levels": tier.pick(2, 4)}),
+            bounds: json!({"levels": [2, 3], "deviations_for_three_levels": tier.pick("2", "unbounded")}),
         }
     }
     fn items(&self, tier: Tier) -> Vec<Value> {
         let mut v = vec![];
         for (si, s) in scenarios(tier).iter().enumerate() {
-            let bound = if s.levels == 2 { None } else { Some(tier.pick(2, 4)) };
+            let bound = if s.levels == 2 || tier == Tier::Thorough { None } else { Some(2) };
             let (singles, roots) = crate::explore::split_frontier(bound, 24, |ch| {
                 run_one(ch, s, false);
             });
@@ -360,7 +360,7 @@ impl Check for C15 {
     }
     fn run_item(&self, tier: Tier, item: &Value, out: &mut ItemOut) {
         let s = scenarios(tier).swap_remove(item["scn"].as_u64().unwrap() as usize);
-        let bound = if s.levels == 2 { None } else { Some(tier.pick(2, 4)) };
+        let bound = if s.levels == 2 || tier == Tier::Thorough { None } else { Some(2) };
         let prefix: Vec<u32> = item["prefix"].as_array().unwrap().iter().map(|x| x.as_u64().unwrap() as u32).collect();
         let single = item["single"].as_bool().unwrap();
         let desc = json!({"models": models(&s), "innermost_process_ended_by": s.ending});
